@@ -13,8 +13,19 @@ import (
 
 var reParamK = regexp.MustCompile(`funcExpr\.Param\[(\d+|\*)\]`)
 
+// substStack: while a helper is being looked into, its parameter names stand for the caller's argument paths
+var substStack []map[string]string
+
 func normKey(v ssa.Value) string {
 	p := path(v)
+	for i := len(substStack) - 1; i >= 0; i-- {
+		for name, actual := range substStack[i] {
+			re := regexp.MustCompile(`(^|[^A-Za-z0-9_.])` + regexp.QuoteMeta(name) + `($|[^A-Za-z0-9_])`)
+			for k := 0; k < 3 && re.MatchString(p); k++ {
+				p = re.ReplaceAllString(p, "${1}"+strings.ReplaceAll(actual, "$", "$$")+"${2}")
+			}
+		}
+	}
 	p = reParamK.ReplaceAllString(p, "P$1")
 	p = strings.ReplaceAll(p, "getKeyName(P", "keyName(P")
 	p = strings.ReplaceAll(p, ")#0", ")")
@@ -87,8 +98,27 @@ func effectSites(t *Tree, f *ssa.Function, depth int) []effectSite {
 			out = append(out, effectSite{"write", "exit", call, f})
 		default:
 			if depth > 0 && inModule(cal) && cal.Pkg == f.Pkg && cal.Signature.Recv() == nil {
-				for _, e := range effectSites(t, cal, depth-1) {
-					e.Desc = e.Desc + " via " + cal.Name()
+				// the helper's parameters are the caller's arguments
+				sub := map[string]string{}
+				for k, prm := range cal.Params {
+					if k < len(a) {
+						sub[prm.Name()] = path(a[k])
+					}
+				}
+				substStack = append(substStack, sub)
+				inner := effectSites(t, cal, depth-1)
+				substStack = substStack[:len(substStack)-1]
+				for _, e := range inner {
+					// an effect whose key is expressed in the caller's terms needs no "via": it is the caller's effect
+					local := false
+					for _, prm := range cal.Params {
+						if regexp.MustCompile(`(^|[^A-Za-z0-9_.])` + regexp.QuoteMeta(prm.Name()) + `($|[^A-Za-z0-9_])`).MatchString(e.Desc) {
+							local = true
+						}
+					}
+					if local || strings.Contains(e.Desc, "phi:") || strings.Contains(e.Desc, "?t") {
+						e.Desc = e.Desc + " via " + cal.Name()
+					}
 					out = append(out, e)
 				}
 			}
